@@ -264,11 +264,15 @@ def run_harnesses(scratch, crate, groups, jobs=8, timeout=900, target_dir=None, 
     wall = time.time() - t0
     # CBMC hands its formula to external SAT solvers through /tmp/external-sat*.cnf and leaves the file behind when
     # the run is stopped (portfolio decided, timeout): remove the ones written during this run
+    # (only when no solver of a concurrently running check could still be about to read one)
     try:
         import glob
-        for fcnf in glob.glob(os.path.join(os.environ.get("TMPDIR", "/tmp"), "external-sat*.cnf")):
-            if os.path.getmtime(fcnf) >= t0 - 1:
-                os.remove(fcnf)
+        busy = subprocess.run("pgrep -x cbmc || pgrep -x kissat || pgrep -x cadical", shell=True,
+                              capture_output=True, text=True).stdout.strip()
+        if not busy:
+            for fcnf in glob.glob(os.path.join(os.environ.get("TMPDIR", "/tmp"), "external-sat*.cnf")):
+                if os.path.getmtime(fcnf) >= t0 - 1:
+                    os.remove(fcnf)
     except OSError:
         pass
     by_group = {}
